@@ -121,10 +121,8 @@ def template_of(full, free):
 
 
 def transports(pid):
-    if pid == RPC_TCP:
-        return ("tcp",)
-    if pid == RPC_UDP:
-        return ("udp",)
+    # the responder is chosen by the signature that completed, never by the transport: a record-marked call in a datagram is
+    # answered record-marked, a bare call on a TCP connection is answered bare
     return ("udp", "tcp")
 
 
